@@ -1,12 +1,32 @@
 import Driver.Proto
+import Driver.C01
+import Driver.C02
+import Driver.C03
+import Driver.C04
 import Driver.C05
+import Driver.C06
+import Driver.C07
+import Driver.C08
+import Driver.C09
+import Driver.C10
+import Driver.C11
+import Driver.C12
+import Driver.C13
+import Driver.C14
+import Driver.C15
+import Driver.C16
+import Driver.C17
+import Driver.C18
+import Driver.C19
+import Driver.C20
 /-
 modeldriver model  < cases.in      → one model answer per line
 modeldriver judge  < joined.in     → one verdict per line; joined line = case fields, TAB "=>" TAB impl answer
 -/
 open Driver
 
-def allStreams : List Stream := Driver.C05.streams
+def allStreams : List Stream :=
+  Driver.C01.streams ++ Driver.C02.streams ++ Driver.C03.streams ++ Driver.C04.streams ++ Driver.C05.streams ++ Driver.C06.streams ++ Driver.C07.streams ++ Driver.C08.streams ++ Driver.C09.streams ++ Driver.C10.streams ++ Driver.C11.streams ++ Driver.C12.streams ++ Driver.C13.streams ++ Driver.C14.streams ++ Driver.C15.streams ++ Driver.C16.streams ++ Driver.C17.streams ++ Driver.C18.streams ++ Driver.C19.streams ++ Driver.C20.streams
 
 def findStream (n : String) : Option Stream := allStreams.find? (·.name == n)
 
